@@ -195,8 +195,14 @@ impl SignalUse {
                     .chain(constraint.lhe.components_written().iter());
                 let rhe =
                     constraint.rhe.signals_read().iter().chain(constraint.rhe.components_read().iter());
-                lhe.chain(rhe)
-                    .any(|signal_use| signal_use.name() == signal && signal_use.access() == access)
+                // The use mentions the assigned signal when one access is a
+                // prefix of the other (`q[1] <-- ..` and `q[1][0] === ..`,
+                // `out <-- [..]` and `out[0] === ..`, `o[0] <-- ..` and `o === ..`).
+                lhe.chain(rhe).any(|signal_use| {
+                    let used = signal_use.access();
+                    let n = used.len().min(access.len());
+                    signal_use.name() == signal && used[..n] == access[..n]
+                })
             })
             .collect()
     }
